@@ -194,6 +194,44 @@ fn reader_thread<D: Distance>(
     }
 }
 
+
+/// Usage shape added after seeded change C08/r2 (a memo on the `Writer` value that outlives an abort): after a round
+/// that built and was then aborted (or whose build was cancelled), the caller simply *retries*: a round without any
+/// item operation that calls the same build again and commits; `coins[i] % 4 == 2` also inserts such an idle
+/// rebuild round after a committed round. The coins are generated values, so the shape shrinks with the case.
+pub fn with_retry_rounds(mut spec: HistorySpec, coins: &[u8]) -> HistorySpec {
+    let mut rounds = Vec::with_capacity(spec.rounds.len() * 2);
+    for (i, r) in spec.rounds.into_iter().enumerate() {
+        let coin = coins.get(i % coins.len().max(1)).copied().unwrap_or(3) % 4;
+        let aborted = !r.commit || r.builds.iter().any(|b| b.cancel_at.is_some());
+        let retry = !r.builds.is_empty() && ((aborted && coin < 2) || (!aborted && coin == 2));
+        let again = if retry {
+            let mut builds = r.builds.clone();
+            for b in &mut builds {
+                b.cancel_at = None;
+                b.twice = false;
+            }
+            Some(crate::spec::Round { ops: Vec::new(), builds, commit: true, qseed: r.qseed ^ 0x5bd1_e995 })
+        } else {
+            None
+        };
+        rounds.push(r);
+        rounds.extend(again);
+    }
+    spec.rounds = rounds;
+    spec
+}
+
+fn retry_rounds_after_abort(spec: &HistorySpec) -> u64 {
+    spec.rounds
+        .windows(2)
+        .filter(|w| {
+            let aborted = !w[0].commit || w[0].builds.iter().any(|b| b.cancel_at.is_some());
+            aborted && !w[0].builds.is_empty() && w[1].ops.is_empty() && !w[1].builds.is_empty() && w[1].commit
+        })
+        .count() as u64
+}
+
 pub fn owned_case<D: Distance>(c: &OwnedCase, st: &mut CaseStats) -> Result<(), Fail> {
     let spec = &c.spec;
     let metric = spec.metric;
@@ -342,6 +380,20 @@ pub fn owned_case<D: Distance>(c: &OwnedCase, st: &mut CaseStats) -> Result<(), 
                             w.commit().map_err(|e| Fail::Infra(format!("commit: {e}")))?;
                             committed += 1;
                             st.bump("commits");
+                            // a round that only re-ran the build (retry after an abort, idle rebuild): a free reader looks at
+                            // the version it produced straight away, whatever the generated schedule does next
+                            let retry_round = pos >= 2 && matches!(wsteps[pos - 1], W::Build(_)) && matches!(wsteps[pos - 2], W::Begin);
+                            if retry_round {
+                                if let Some(r) = (0..n_readers).find(|&r| open_at[r].is_none()) {
+                                    txs[r].send(Cmd::Open { expect: committed }).map_err(|_| Fail::Infra("reader thread gone".into()))?;
+                                    let resp = rxs[r].recv().map_err(|_| Fail::Infra("reader thread gone".into()))??;
+                                    st.bump("retry_round_versions_inspected");
+                                    if resp == "opened" {
+                                        txs[r].send(Cmd::Close).map_err(|_| Fail::Infra("reader thread gone".into()))?;
+                                        rxs[r].recv().map_err(|_| Fail::Infra("reader thread gone".into()))??;
+                                    }
+                                }
+                            }
                         } else {
                             let had_build = model[0].built && !model[0].stale && saved[0].stale;
                             w.abort();
@@ -382,6 +434,9 @@ pub fn owned_case<D: Distance>(c: &OwnedCase, st: &mut CaseStats) -> Result<(), 
         }
         *result.lock().unwrap() = r;
     });
+    if retry_rounds_after_abort(&c.spec) > 0 {
+        st.flag("build_retried_after_abort_without_ops");
+    }
     st.nontrivial = st.get("snapshot_held_across_2_commits") > 0 || st.get("abort_after_build") > 0;
     result.into_inner().unwrap()
 }
@@ -633,8 +688,8 @@ pub fn run_c08(tier: Tier) -> i32 {
         env_seed(),
         tier.pick(4000, 40_000),
         || {
-            (crate::gen::history(&g), vec((any::<u16>(), 0u8..4, prop_oneof![3 => Just(0u8), 4 => Just(1u8), 2 => Just(2u8)]), 4..40))
-                .prop_map(|(spec, acts)| OwnedCase { spec, actions: acts.into_iter().map(|(pos, reader, act)| ReaderAction { pos, reader, act }).collect() })
+            (crate::gen::history(&g), vec((any::<u16>(), 0u8..4, prop_oneof![3 => Just(0u8), 4 => Just(1u8), 2 => Just(2u8)]), 4..40), vec(0u8..4, 9))
+                .prop_map(|(spec, acts, coins)| OwnedCase { spec: with_retry_rounds(spec, &coins), actions: acts.into_iter().map(|(pos, reader, act)| ReaderAction { pos, reader, act }).collect() })
         },
         |c: &OwnedCase| json!({"history": c.spec.render(), "reader_actions": c.actions.len()}),
         |c: &OwnedCase, st: &mut CaseStats| with_metric!(c.spec.metric, D => owned_case::<D>(c, st)),
@@ -649,7 +704,7 @@ pub fn run_c08(tier: Tier) -> i32 {
         "C08-free",
         env_seed(),
         tier.pick(160, 2000),
-        || (crate::gen::history(&g), 2usize..=8).prop_map(|(spec, readers)| FreeCase { spec, readers }),
+        || (crate::gen::history(&g), 2usize..=8, vec(0u8..4, 9)).prop_map(|(spec, readers, coins)| FreeCase { spec: with_retry_rounds(spec, &coins), readers }),
         |c: &FreeCase| json!({"history": c.spec.render(), "readers": c.readers}),
         |c: &FreeCase, st: &mut CaseStats| with_metric!(c.spec.metric, D => free_case::<D>(c, st)),
         &mut report.acc,
